@@ -7,7 +7,7 @@ PROP = dict(
         level_text=("Monitored executions of the real dispatcher: 100k (quick) / 1M (thorough) random histories of register / refuse duplicate / "
                     "clear / replace and delete through mpt_command_set / emit by id, by message (first byte, also fragmented), default event / "
                     "mpt_dispatch_hash on command messages (NUL and blank separated, fragmented, also nested inside a handler registered for "
-                    "MessageCommand) / fini+init, over a domain of 6 message ids, 6 command-word hashes and 40 bulk ids, handlers returning every "
+                    "MessageCommand) / fini+init, over a domain of 6 message ids, 11 command-word hashes (6 ASCII words, 3 fixed and 2 per-case generated words with bytes >= 0x80; ids computed with mpt_hash(word, -1) or mpt_hash(word, length)) and 40 bulk ids, reply-id reservations on the dispatcher's own table (also as its first table operation) with emit/clear on the reserved ids, handlers returning every "
                     "combination of Default/Fail/Terminate or an error and leaving, zeroing or changing ev->id; every 8th case drives "
                     "mpt_command_reserve on a separate table (mixed widths; width-1 tables run past id 127 and to exhaustion).  After every "
                     "operation mpt_command_get is compared with the model for the whole domain and the end-of-life count of every registration "
@@ -27,11 +27,19 @@ PROP = dict(
                            "monitor:table-compared": 1000000, "monitor:finalise-compared": 1000000, "monitor:lifetime-accounted": 500000,
                            "monitor:reserved-id-unique": 300000, "monitor:reserved-compared": 300000,
                            "history:table-grew": 50000, "history:freed-slot-reused": 30000, "history:reserved-id-wrapped": 1000,
-                           "default:set": 50000, "default:cleared": 10000}),
+                           "default:set": 50000, "default:cleared": 10000,
+                           "mpt_command_reserve(dispatcher table)": 50000, "reserve-own:first-table-operation": 15000,
+                           "reserve-own:accepted": 10000, "emit:reserved-id": 2000,
+                           "fini:reserve-created-table-with-live-handlers": 10000,
+                           "hash:high-bit-word": 40000, "hash:high-bit-word-fragmented": 20000,
+                           "hash:high-bit-registered-terminated-form": 8000, "hash:high-bit-registered-counted-form": 8000,
+                           "monitor:hash-forms-compared": 500000, "monitor:hash-forms-high-bit": 200000}),
               dict(name="c11_cxx", src=["c11_cxx.cpp"], libs=["mpt++", "mptio", "mptplot", "mptcore"], batch=512, lsan=True,
                    floors={"dispatch::set_handler": 100000, "dispatch::set_handler(clear)": 50000, "dispatch::set_default": 50000,
                            "dispatch::set_error": 20000, "dispatch::~dispatch": 20000, "monitor:set-default-registered": 10000,
-                           "emit:delivered-registered": 50000, "emit:delivered-default": 5000, "monitor:lifetime-accounted": 100000})],
+                           "emit:delivered-registered": 50000, "emit:delivered-default": 5000, "monitor:lifetime-accounted": 100000,
+                           "dispatch::reserve": 20000, "reserve:first-table-operation": 3000,
+                           "fini:reserve-created-table-with-live-handlers": 3000})],
         rule=("case = one PRNG history of 10..70 (thorough 120) dispatcher operations ending in mpt_dispatch_fini, or (every 8th case) one "
               "history of 10..300 reserve/release operations on a reservation table ending in mpt_command_clear; C++ leg: 8..50 operations "
               "ending in the destructor; non-trivial = at least 3 emits and at least 2 simultaneously live registrations (dispatcher) / at "
@@ -39,7 +47,7 @@ PROP = dict(
         assumptions=SAN_BASE + [
             "flag protocol of mpt_dispatch_emit: handler result s >= 0, Default in s makes ev->id (as left by the handler) the default id (0 clears); "
             "the call returns (s without Default) | (Default iff a default id is set); a negative handler result is returned unchanged",
-            "command ids of text commands are mpt_hash(word, length) as computed by the registering caller",
+            "command ids of text commands are mpt_hash(word, length) or mpt_hash(word, -1) as computed by the registering caller (chosen per word and case); both forms denote the same text",
             "the fallback is installed by writing dispatch._err as examples/io/dispatch.c does (C) / dispatch::set_error (C++)",
             "reserved ids: entries are activated/deactivated by the owner through command.cmd as mpt_connection_await / mpt_stream_sync do; "
             "an id fits width w iff id <= 2^(8w-1)-1",
